@@ -232,6 +232,15 @@ def dyn_contracts(u, ID, lw, be, ety):
     pre = [OBJ(p, rec)] + vw.wf() + [BUF(sp, "sbv_m"), ASSUME("sbv_m >= 1 && sbv_m <= 5"), ASSUME("%s[sbv_m - 1] == 0" % sp), ASSUME("%d <= sbv_n && sbv_n <= %d" % (lw, CAP)), ASSUME("sbv_k < 4")]
     add(f, "assign_string [content]", pre, [("new-size-fits-or-reported", "%d + %s <= sbv_n" % (lw, strl))] + lenbytes(vw, strl) + [("elements-are-the-string", "SPEC_IMPLIES(sbv_k < %s, %s == (uint8_t)%s[sbv_k < sbv_m ? sbv_k : 0])" % (strl, el(vw, "sbv_k"), sp))],
         assigns=["__CPROVER_object_upto(%s, sbv_n)" % vw.begin], ghosts=GM, props={"C13", "C10"}, kind="bounded(buffer<=%d,string<=4)" % CAP, unwind=CAP + 2, backends=["z3", "cvc5", "kissat", "minisat"])
+    # the same operation without the "new length is representable" assumption: capacity overflow must be reported, not truncated
+    if lw == 1:
+        f = tgt("insert_n")
+        p, rec, vw = dview(f)
+        pos, cnt, val = f.p[1], f.p[2], f.p[3]
+        pre = [OBJ(p, rec)] + vw.wf() + [ASSUME("%d <= sbv_n" % lw), INRANGE(pos, "((%s *)(%s + %d))" % (ety, vw.begin, lw), "((%s *)(%s + sbv_n))" % (ety, vw.begin), "sbv_p"), ASSUME("%d + sbv_p <= sbv_n" % lw)]
+        add(f, "insert(pos,count,value) [structure, any count]", pre,
+            [("pos-inside-or-reported", "sbv_p <= %s" % L0), ("new-size-representable-and-fits-or-reported", "%s + (unsigned long)%s <= %dUL && %d + %s + (unsigned long)%s <= sbv_n" % (L0, cnt, MAXV, lw, L0, cnt))],
+            assigns=["__CPROVER_object_upto(%s, sbv_n)" % vw.begin], ghosts=GK, props={"C13", "C10"}, libc=("memmove", "memset"))
     # assign(count, value)
     f = tgt("assign_n")
     p, rec, vw = dview(f)
